@@ -319,9 +319,7 @@ func RunC12(tier string) int {
 			run.Nontrivial(fmt.Sprintf("%s|p%d|t%d|e%d|%s|sel%d", q.Cmd, len(q.Patterns), len(q.Tags), len(q.ExcludeTags), q.Platform, len(ref.Must)))
 		}
 		run.Count("targets_selected_and_executed", len(executed))
-		if i < 3 {
-			run.Sample(map[string]any{"query": q.args(), "cwd": q.Cwd, "executed": exl, "targets": len(s.Targets)})
-		}
+		run.Sample(map[string]any{"query": q.args(), "cwd": q.Cwd, "executed": exl, "targets": len(s.Targets)})
 	})
 	run.Assume("targets reached only through an alias that itself matches a pattern are may-run (the statement speaks about matching targets)")
 	return run.Finish()
